@@ -6,14 +6,17 @@ import hypothesis
 from hypothesis import strategies as st
 from hypothesis.stateful import RuleBasedStateMachine, rule, run_state_machine_as_test
 
-from .. import core, impl, fsmodel
+from .. import core, impl, fsmodel, pspace
 from ..pristine import Pristine
 from ..gen import scripts as S
 
 PROP = "C13"
 MOD = __name__
 
-RULE = ("Hypothesis RuleBasedStateMachine (<= 25 steps): one long-lived Parser, fresh Parsers and two FiltersSets; scripts that are "
+RULE = ("first-contact histories (for every command/test of the language, the process's first use of it is an irregular one - a tag at every "
+        "position, cut off after the tag, without require - followed by its regular uses, FiltersSet operations and the irregular use "
+        "again; each in a process forked from the pristine image; likewise every ordered pair and triple of uses of a family of registered "
+        "custom commands whose classes derive from one another) + Hypothesis RuleBasedStateMachine (<= 25 steps): one long-lived Parser, fresh Parsers and two FiltersSets; scripts that are "
         "valid / invalid / truncated mid-construct / with differing requires (incl. regex, relational), FiltersSet operations incl. "
         "conditions with extension-bound match types; oracle: each parse observation (verdict, error, error_pos, tree, "
         "serialisation, exception) equals the observation for that script alone in a pristine forked interpreter image, and each "
@@ -60,7 +63,46 @@ DEFS = [
 NAMES = ["n1", "n2"]
 
 
-def observe_parse(script, parser=None):
+CUSTOM_SCRIPTS = [
+    b'vfparent "a";', b'vfchild "a" 5;', b'vfchild "a";', b'vfparent "a" 5;', b'if vftestp "a" { keep; }',
+    b'if vftestc :x "a" "b" { keep; }', b'if vftestc "a" { keep; }', b'if vftestp :x "a" { keep; }', b'vfchild :copy "a" 5;',
+    b'vfgrandchild "a" 5 "c";', b'vfgrandchild "a" 5;',
+]
+_CUSTOM_DONE = []
+
+
+def ensure_custom():
+    """Register (once per process) a small family of user-defined commands in which
+    classes derive from other registered command classes, as an application that
+    extends the parser may write them."""
+    if _CUSTOM_DONE:
+        return
+    _CUSTOM_DONE.append(1)
+    C = impl.sl_commands
+
+    class VfparentCommand(C.ActionCommand):
+        args_definition = [{"name": "what", "type": ["string"], "required": True}]
+
+    class VfchildCommand(VfparentCommand):
+        args_definition = [{"name": "what", "type": ["string"], "required": True}, {"name": "count", "type": ["number"], "required": True}]
+
+    class VfgrandchildCommand(VfchildCommand):
+        args_definition = VfchildCommand.args_definition + [{"name": "more", "type": ["string"], "required": True}]
+
+    class VftestpCommand(C.TestCommand):
+        args_definition = [{"name": "key", "type": ["string"], "required": True}]
+
+    class VftestcCommand(VftestpCommand):
+        args_definition = [{"name": "flag", "type": ["tag"], "values": [":x"], "required": False},
+                           {"name": "key", "type": ["string"], "required": True}, {"name": "val", "type": ["string"], "required": True}]
+
+    for cls in (VfparentCommand, VfchildCommand, VfgrandchildCommand, VftestpCommand, VftestcCommand):
+        C.add_commands(cls)
+
+
+def observe_parse(script, parser=None, custom=False):
+    if custom:
+        ensure_custom()
     o = impl.parse_outcome(script, parser=parser)
     obs = {"verdict": o.verdict, "exc": o.exc, "error": o.error, "error_pos": o.error_pos, "tree": None, "text": None}
     if o.verdict is True:
@@ -87,7 +129,7 @@ def fs_step(fs, op):
 
 def execute(req):
     if req[0] == "parse":
-        return observe_parse(req[1])
+        return observe_parse(req[1], custom=len(req) > 2 and req[2])
     if req[0] == "history":
         # run a whole history in this (pristine) process, with its own
         # pristine image for the comparisons
@@ -122,8 +164,8 @@ def run_history(steps, pristine):
         k = stp["kind"]
         if k in ("parse-reused", "parse-fresh"):
             script = stp["script"]
-            got = observe_parse(script, longlived if k == "parse-reused" else None)
-            exp = pristine.query(("parse", script))
+            got = observe_parse(script, longlived if k == "parse-reused" else None, custom=stp.get("custom", False))
+            exp = pristine.query(("parse", script, stp.get("custom", False)))
             if disturbed:
                 info["nontrivial"] = True
             if got != exp:
@@ -165,6 +207,90 @@ def all_fs_ops():
     return ops
 
 
+def first_contact_histories():
+    """For every command and test X of the supported language: histories whose FIRST
+    use of X in the process is an irregular one (a tag - valid for X or not, with or
+    without parameter - at every position of X's minimal use, X cut off right after
+    the tag, X alone), followed by regular uses of X with each of its tags, a few
+    FiltersSet operations, and the irregular use once more.  Each history is run in
+    a process forked from the pristine image."""
+    from ..refsieve import TABLE, SUPPORTED_EXTENSIONS, analyze, VALID
+    from ..gen import tokens as T
+    req = [b"require", b"["]
+    for i, x in enumerate(SUPPORTED_EXTENSIONS):
+        if i:
+            req.append(b",")
+        req.append(b'"%s"' % x.encode())
+    req += [b"]", b";"]
+    params = [[], [b'"i;octet"'], [b'"ge"'], [b'"x"'], [b"7"], [b"[", b'"x"', b"]"]]
+    fs_tail = [{"kind": "fs", "set": "A", "op": {"op": "add", "name": "n1", "def": d}} for d in (1, 4, 5, 6, 7)]
+    for name in sorted(TABLE):
+        exts, toks, at = pspace.minimal_use(name)
+        end = len(toks)
+        regular = []
+        tagged = []
+        for tag in T.TAGS:
+            for par in params:
+                cand = req + toks[:at] + [tag] + par + toks[at:]
+                if analyze(S.canonical(cand)).verdict == VALID:
+                    regular.append(S.canonical(cand))
+                    tagged.append((tag, par))
+                    break
+        regular.append(S.canonical(req + toks))
+        irregular = []
+        for tag, par in tagged + [(T.UNKNOWN_TAG, []), (T.UNKNOWN_TAG, [b'"x"'])]:
+            for pos in range(at, end + 1):
+                irregular.append(req + toks[:pos] + [tag] + par + toks[pos:])
+            irregular.append(req + toks[:at] + [tag])
+            irregular.append(req + toks[:at] + [tag] + par)
+            irregular.append(toks[:at] + [tag] + par + toks[at:])  # without require
+        irregular.append(req + toks[:at])
+        irregular.append(req + toks[:at] + [b";"])
+        seen = set()
+        for irr in irregular:
+            text = S.canonical(irr)
+            if text in seen or text in regular:
+                continue
+            seen.add(text)
+            for reused in (False, True):
+                kind = "parse-reused" if reused else "parse-fresh"
+                steps = [{"kind": kind, "script": text}] + [{"kind": kind, "script": r} for r in regular] + fs_tail + \
+                        [{"kind": kind, "script": text}]
+                yield name.decode(), steps
+
+
+def custom_histories():
+    import itertools
+    for n in (2, 3):
+        for combo in itertools.permutations(CUSTOM_SCRIPTS, n):
+            yield "custom-commands", [{"kind": "parse-fresh", "script": sc, "custom": True} for sc in combo]
+
+
+def first_contact_worker(arg):
+    k, n = arg
+    pristine = Pristine(execute)
+    col = core.Collector()
+    try:
+        import itertools
+        for i, (name, steps) in enumerate(itertools.chain(first_contact_histories(), custom_histories())):
+            if i % n != k:
+                continue
+            fails = pristine.query(("history", steps))
+            col.case(key=repr(steps), nontrivial=True, classes=["first-contact", "first-contact:" + name],
+                     sample={"steps": steps[:2], "first_contact_with": name} if i % 211 == 0 else None)
+            for b, d in fails:
+                col.fail(b + "|first-contact", {"steps": d["steps"]}, d, size=len(d["steps"]) * 1000 + len(repr(d["steps"])))
+    finally:
+        pristine.close()
+    return col
+
+
+def any_worker(arg):
+    if arg[0] == "fc":
+        return first_contact_worker(arg[1])
+    return worker(arg[1])
+
+
 def worker(arg):
     sd, n, nsteps = arg
     pristine = Pristine(execute)  # before this process touches sievelib
@@ -179,6 +305,10 @@ def worker(arg):
             @rule(script=st.sampled_from(FIXED_SCRIPTS), reused=st.booleans())
             def parse_fixed(self, script, reused):
                 self.steps.append({"kind": "parse-reused" if reused else "parse-fresh", "script": script})
+
+            @rule(script=st.sampled_from(CUSTOM_SCRIPTS), reused=st.booleans())
+            def parse_custom(self, script, reused):
+                self.steps.append({"kind": "parse-reused" if reused else "parse-fresh", "script": script, "custom": True})
 
             @rule(data=st.data(), reused=st.booleans())
             def parse_generated(self, data, reused):
@@ -249,8 +379,10 @@ def shrink(case, bucket, budget):
 def main(tier, seed, t0):
     _replay_pristine()  # main process has not used sievelib yet
     quick = tier == "quick"
-    col = core.run_shards(worker, [(seed * 1000 + 1300 + k, 80 if quick else 1500, 25) for k in range(16)])
-    need = ["kind:parse-reused", "kind:parse-fresh", "kind:fs"]
+    shards = [("sm", (seed * 1000 + 1300 + k, 80 if quick else 1500, 25)) for k in range(16)]
+    shards += [("fc", (k, 16)) for k in range(16)]
+    col = core.run_shards(any_worker, shards)
+    need = ["kind:parse-reused", "kind:parse-fresh", "kind:fs", "first-contact"]
     missing = [c for c in need if not col.classes.get(c)]
     if missing:
         raise core.HarnessError("generator classes empty: %s" % missing)
